@@ -85,7 +85,11 @@ class StructParam(Parameter):
         self.insideRW = AccessDepth()
         if paramdict:
             kwds['paramdict'] = paramdict
-        super().__init__(description, datatype, readonly=readonly, **kwds)
+        if paramdict is not None or datatype is not None:
+            # not on Parameter.clone(): the properties of the source (readonly included) are applied afterwards,
+            # a readonly=False from here would be taken for an own property and win over them
+            kwds['readonly'] = readonly
+        super().__init__(description, datatype, **kwds)
 
     def __set_name__(self, owner, name):
         # names of access methods of structed param (e.g. ctrlpars)
